@@ -323,7 +323,8 @@ def env_before(fn: FuncNode, stmt: ast.stmt) -> dict[str, ast.AST] | None:
     return first
 
 
-def loop_passes(fn: FuncNode, loop: ast.For) -> tuple[ast.AST, dict[str, ast.AST], list[Path], list[Path]] | None:
+def loop_passes(fn: FuncNode, loop: ast.For, symbolic: tuple[str, ...] = ()
+                ) -> tuple[ast.AST, dict[str, ast.AST], list[Path], list[Path]] | None:
     """(resolved iterable, environment on entry without the names the loop binds, complete passes of
     the body, all passes incl. those ending in `continue` or raising); None if the loop is not a plain
     top-level `for` whose body neither breaks nor returns."""
@@ -331,7 +332,7 @@ def loop_passes(fn: FuncNode, loop: ast.For) -> tuple[ast.AST, dict[str, ast.AST
     if env is None or loop.orelse:
         return None
     bound = _stored(loop)
-    env_in = {k: v for k, v in env.items() if k not in bound}
+    env_in = {k: v for k, v in env.items() if k not in bound and k not in symbolic}   # `symbolic`: mutated in place
     try:
         res = sym_block(loop.body, env_in)
     except SymUnsupported:
@@ -519,3 +520,75 @@ def splice(source: str, edits: list[tuple[ast.AST, str]]) -> str:
     for a, b, new in spans:
         source = source[:a] + new + source[b:]
     return source
+
+
+# --------------------------------------------------------------------------------------------- guards
+def nonempty_test(test: ast.AST, outcome: bool) -> ast.AST | None:
+    """If `test` having the truth value `outcome` says exactly "the collection L is not empty"
+    (`L`, `not L`, `len(L) == 0`, `len(L) > 0`, `1 <= len(L)`, …, decided by evaluating the comparison for
+    every small length), return L; else None."""
+    if isinstance(test, ast.Compare) and len(test.ops) == 1:
+        a, b = test.left, test.comparators[0]
+        la, lb = simple_call(a, ("len",), 1), simple_call(b, ("len",), 1)
+        const = b if la is not None else a
+        if (la is None) == (lb is None) or not (isinstance(const, ast.Constant) and isinstance(const.value, int)
+                                                 and not isinstance(const.value, bool)):
+            return None
+        import operator
+        fn = {ast.Eq: operator.eq, ast.NotEq: operator.ne, ast.Lt: operator.lt, ast.LtE: operator.le,
+              ast.Gt: operator.gt, ast.GtE: operator.ge}.get(type(test.ops[0]))
+        if fn is None:
+            return None
+        c = const.value
+        if all((fn(n, c) if la is not None else fn(c, n)) == outcome for n in range(1, 8)) \
+                and (fn(0, c) if la is not None else fn(c, 0)) != outcome:
+            return (la or lb)[0]  # type: ignore[index]
+        return None
+    if isinstance(test, (ast.Compare, ast.BoolOp, ast.UnaryOp, ast.Constant)):
+        return None
+    return test if outcome else None
+
+
+def availability(prog: Program, fn: FuncInfo, node: FuncNode, e: ast.AST, depth: int = 4) -> str | None:
+    """'present' / 'missing' / None: does the truth of `e` say that data is available / unavailable?
+
+    `x.has_value()`, `y is not None`                      present
+    `math.isnan(v)`, `y is None`                          missing
+    `not e`                                               the opposite of e
+    `all(present for …)`, `a and b` (both present)        present
+    `any(missing for …)`, `a or b` (both missing)         missing
+    a call of a closure / private helper                  that of its (single) returned expression
+    anything else (incl. `any(present …)`: "some")        None"""
+    if depth < 0:
+        return None
+    flip = {"present": "missing", "missing": "present", None: None}
+    if isinstance(e, ast.UnaryOp) and isinstance(e.op, ast.Not):
+        return flip[availability(prog, fn, node, e.operand, depth)]
+    if isinstance(e, ast.BoolOp):
+        ks = {availability(prog, fn, node, v, depth) for v in e.values}
+        want = "present" if isinstance(e.op, ast.And) else "missing"
+        return want if ks == {want} else None
+    if isinstance(e, ast.Compare) and len(e.ops) == 1 and isinstance(e.ops[0], (ast.Is, ast.IsNot)) \
+            and isinstance(e.comparators[0], ast.Constant) and e.comparators[0].value is None:
+        return "missing" if isinstance(e.ops[0], ast.Is) else "present"
+    if isinstance(e, ast.Call):
+        if isinstance(e.func, ast.Attribute) and e.func.attr == "has_value" and not e.args and not e.keywords:
+            return "present"
+        if u(e.func) in ("math.isnan", "isnan") and len(e.args) == 1:
+            return "missing"
+        for q, want in (("all", "present"), ("any", "missing")):
+            a = simple_call(e, (q,), 1)
+            if a is not None:
+                el = elem_of(a[0])
+                return want if el is not None and availability(prog, fn, node, el, depth - 1) == want else None
+        nested = {n.name: n for n in ast.walk(node) if isinstance(n, (ast.FunctionDef, ast.AsyncFunctionDef)) and n is not node}
+        h = _helper_target(prog, fn, e, nested)
+        if h is not None and h is not node and not isinstance(h, ast.AsyncFunctionDef):
+            binds = _bind(h, e)
+            try:
+                rets = [p for p in sym_paths(h) if p.exit == "return" and p.ret is not None]
+            except SymUnsupported:
+                rets = []
+            if binds is not None and len(rets) == 1:
+                return availability(prog, fn, node, subst(rets[0].ret, binds), depth - 1)
+    return None
